@@ -119,11 +119,20 @@ def run(ctx):
             ctx.bad("R19.2", f, "deleter-present:" + tag, "the shared_ptr has no deleter: the library is never closed (and `delete` on a void* handle is undefined)", f)
             continue
         d = ir.unwrap(init["args"][1])
-        if not (isinstance(d, dict) and d.get("k") == "lambda"):
+        while isinstance(d, dict) and d.get("k") == "cast":
+            d = ir.unwrap(d["e"])
+        body = None
+        if isinstance(d, dict) and d.get("k") == "lambda":
+            body = prog.fn((d.get("bodies") or [d.get("id")])[0])
+        elif isinstance(d, dict) and d.get("k") in ("construct", "init_list", "value_init") and not [a for a in d.get("args", d.get("elems", [])) if not (isinstance(a, dict) and a.get("k") == "defarg")]:
+            # a stateless function object of a class of this header: its call operator is the deleter
+            cname = d.get("name") or d.get("type") or ""
+            ops = [h for h in prog.fns.values() if h.has_cfg and h.op == "()" and h.file == f.file and (h.cls or "").split("::")[-1] == short(cname).split("::")[-1] and len(h.params) == 1]
+            body = ops[0] if len(ops) == 1 else None
+        if body is None:
             ctx.bad("R19.2", f, "deleter-null-safe:" + tag,
                     "the deleter is %s, not a function that tests its argument: shared_ptr runs the deleter also for a null handle, so a failed dlopen ends in dlclose(NULL) while the exception unwinds" % fmt(d), f)
             continue
-        body = prog.fn((d.get("bodies") or [d.get("id")])[0])
         if body is None or not body.has_cfg:
             ctx.broken("R19.2", f, "deleter-body:" + tag, "deleter body not found", f)
             continue
